@@ -76,7 +76,7 @@ func (sc *c12Scenario) build(bound int) *core.Scenario {
 	return &core.Scenario{
 		Name:      "c12/" + sc.Name,
 		Bound:     bound,
-		FreeBound: 2,
+		FreeBound: c12Free(bound, len(sc.Clients)),
 		Params: sc.Name,
 		Setup: func() *core.Harness {
 			dir := NewDir("c12")
@@ -167,6 +167,14 @@ func (sc *c12Scenario) build(bound int) *core.Scenario {
 			return h
 		},
 	}
+}
+
+// c12Free: non-preemptive deviations allowed per schedule (the schedule count grows quickly with both bounds)
+func c12Free(bound, clients int) int {
+	if bound >= 2 {
+		return 1
+	}
+	return 2
 }
 
 func c12Label(calls [][]*c12Call) string {
